@@ -240,7 +240,10 @@ class Signed(BitVector):
         elif isinstance(rhs, (int, Integer)):
             result_width = 2 * self.width
             lhs = self.to_int()
-            rhs = int(rhs)
+            # numeric_std converts the integer to the width of the vector operand (truncating)
+            rhs = (((int(rhs)) + 2 ** (self.width - 1)) % 2**self.width) - 2 ** (
+                self.width - 1
+            )
         else:
             return NotImplemented
 
@@ -255,7 +258,9 @@ class Signed(BitVector):
 
         elif isinstance(lhs, (int, Integer)):
             result_width = 2 * self.width
-            lhs = int(lhs)
+            lhs = (((int(lhs)) + 2 ** (self.width - 1)) % 2**self.width) - 2 ** (
+                self.width - 1
+            )
             rhs = self.to_int()
         else:
             return NotImplemented
